@@ -462,7 +462,9 @@ PROPS["C17"] = dict(
 
 PROPS["C18"] = dict(
     props_file="Props/C18.v", gen=["ConfigGen"],
-    suites=[dict(suite="config", corr=["diff"], monitors=["mon_spec", "mon_docs", "mon_starts"], classifiers={}, nontrivial="nt_c18")],
+    suites=[dict(suite="config", corr=["diff"], monitors=["mon_spec", "mon_docs", "mon_starts"], classifiers={}, nontrivial="nt_c18"),
+            # "never half-configured": every configured plugin entry works with its own options, in its own place
+            dict(suite="chain", corr=["diff"], monitors=["mon_fail_closed", "mon_order", "mon_gate"], classifiers={}, nontrivial="nt_c17")],
     rule="Config.Validate and config.LoadConfig on generated configurations (a minimal valid configuration with 0..4 sections replaced by "
          "boundary-valued variants: ports 0/1/65535/65536, timeouts -1/0, every strategy / level / format spelling incl. wrong case, pool and "
          "health-check relations at and around equality, breaker max_requests vs success_threshold, backends without name / address / with "
@@ -508,7 +510,9 @@ PROPS["C20"] = dict(
 PROPS["C19"] = dict(
     props_file="Props/C19.v",
     suites=[dict(suite="probe", corr=["diff"], monitors=["mon_c19_stop_returns", "mon_c19_no_probe_after"], classifiers={}, nontrivial="nt_c19"),
-            dict(suite="sigterm", corr=[], monitors=["mon_c19_drains", "mon_c19_exits_in_time"], classifiers={}, nontrivial="nt_c19")],
+            dict(suite="sigterm", corr=[], monitors=["mon_c19_drains", "mon_c19_exits_in_time"], classifiers={}, nontrivial="nt_c19"),
+            # the pool half of Stop: everything pooled is closed whatever Close answers, also when the clean-up is running
+            dict(suite="wspool", corr=["diff_out", "diff_closed"], monitors=["mon_shutdown"], classifiers={}, nontrivial="nt_c20")],
     rule="probe: the real balancer with active checks under virtual time; Stop placed before the first tick, while probes get no answer, "
          "between ticks, after ticks, twice in a row and from three goroutines at once; Stop must return without time passing, the probes "
          "in flight are the ones cancelled, and no probe is sent during three further intervals. sigterm: the real binary receives "
